@@ -1,7 +1,7 @@
 """C12 — the session can always be reconnected, whatever happened before (structural clauses)."""
 from ..core import AnchorLost, chain, peel, phi_alts, is_call, walk, show
 from . import roles, outq, ops
-from .roles import SESSION, RUNTIME, READER, OUTBOUND
+from .roles import SESSION, RUNTIME, READER, OUTBOUND, SDATA
 
 EXPLANATION = (
     "Static clauses of C12 on mir_built: (reset) in Session::connect the reader reset, the transport-timer reset and the "
@@ -140,7 +140,54 @@ def rule_scratch(R):
          "connection could free the space" % (show(buf)[:120], why), where=cwr["span"])
 
 
+def rule_advertised(R):
+    """what CONNECT advertises must not depend on what happens to be in flight: a Receive Maximum computed from the
+    *free* slots of the inbound QoS 2 table is 0 when the table is full -- a protocol error that a conformant broker
+    answers by refusing the connection, on every later attempt (nothing drains the table while disconnected)"""
+    f = R.f
+    call, hb, hcode = roles.handshake(f)
+    n = 0
+    for bb, j, s in hcode.assigns():
+        rv = s["rv"]
+        if bb not in hcode.reachable or "agg" not in rv or rv["agg"].get("adt") != "properties::Property" or not rv.get("ops"):
+            continue
+        v = rv["agg"]["variant"]
+        t = hcode.rvalue_term(rv)
+        n += 1
+        bad = None
+        pay = t[5][0] if t[5] else None
+
+        def scan(x, under_capacity=False):
+            nonlocal bad
+            x = peel(x)
+            if not isinstance(x, tuple) or bad:
+                return
+            if x[0] == "call":
+                cap = (x[4] or "").rsplit("::", 1)[-1] in ("capacity",)
+                for a in x[3]:
+                    scan(a, under_capacity or cap)
+                return
+            if x[0] == "field" and x[3] in (SDATA, OUTBOUND) and not under_capacity:
+                bad = "%s.%s" % (x[3].rsplit("::", 1)[-1], x[2])
+                return
+            for y in x[1:]:
+                if isinstance(y, tuple):
+                    scan(y, under_capacity)
+                elif isinstance(y, list):
+                    for z in y:
+                        if isinstance(z, tuple):
+                            scan(z, under_capacity)
+        if pay is not None:
+            # look through accessor functions (`self.data.inbound_receive_maximum()`)
+            scan(roles.expand_getter(f, pay))
+        R.ob("advertised/%s" % v, bad is None,
+             "the %s that CONNECT advertises is fixed by configuration and capacities, not by session state%s (value %s)"
+             % (v, "" if bad is None else ": it reads " + bad, show(pay)[:100] if pay is not None else None), where=s["span"])
+    R.floor("advertised", n, 3, "properties placed in CONNECT")
+
+
 def run(R):
+    R.rule("advertised", rule_advertised)
     R.rule("reset", rule_reset)
     R.rule("first", rule_first)
     R.rule("scratch", rule_scratch)
